@@ -81,6 +81,14 @@ type MessageVerifBad9 struct {
 
 func (*MessageVerifBad9) GetID() uint32 { return 4000000 }
 
+// malformed: an array of arrays
+type MessageVerifBad10 struct {
+	A    uint8
+	Grid [2][3]uint8
+}
+
+func (*MessageVerifBad10) GetID() uint32 { return 4000000 }
+
 // D2: a dialect with duplicate ids or a malformed message struct is rejected when it is initialised
 func verifHarness_C17_duplicates(k int, bad int) {
 	all := []message.Message{&MessageVerifDynA{}, &MessageVerifDynB{}, &MessageVerifDynC{}, &MessageVerifDynD{}}
@@ -113,6 +121,8 @@ func verifHarness_C17_duplicates(k int, bad int) {
 		msgs = append(msgs, &MessageVerifBad8{})
 	case 11:
 		msgs = append(msgs, &MessageVerifBad9{})
+	case 12:
+		msgs = append(msgs, &MessageVerifBad10{})
 	case 8:
 		// the very same message value listed twice (a list built by concatenation): a duplicate id all the same
 		msgs = append(msgs, msgs[0])
